@@ -86,15 +86,18 @@ def my_internable(v):
   return type(v) is tuple and all(my_internable(e) for e in v)
 
 
-def expected_memoized_paths(root):
-  """Paths a memoized traversal with memoize_internables=False must report:
-  DFS, non-internable objects once (first path), internables every time."""
+def expected_memoized_paths(root, memoize_internables=False):
+  """Paths a memoized traversal must report: DFS in child order; with
+  memoize_internables=False non-internable objects once (first path) and
+  internables every time; with True every object (by identity) once."""
   out = []
   memo = set()
   pins = []
 
   def walk(v, path):
-    if not my_internable(v):
+    if memoize_internables or not my_internable(v):
+      if type(v) is _TempLeaf:
+        v = v.value
       if id(v) in memo:
         return
       memo.add(id(v))
@@ -246,18 +249,19 @@ def check(root, res, case, label):
           f'iterate-memoized-visits(memoize_internables={mi})',
           f'{len(mut)} distinct mutable objects, visit counts '
           f'{sorted(count.values())}, missing={len(mut - set(count))}')
-    if not mi:
-      # documented meaning of memoize_internables=False: internable values
-      # (constants and tuples of constants) are visited at every path,
-      # everything else once -- this is what Buildable.__eq__ relies on.
-      exp = expected_memoized_paths(root)
-      got = [spec(p) for _, p in stream]
-      if sorted(got, key=repr) != sorted(exp, key=repr):
-        miss = [p for p in exp if p not in set(got)]
-        extra = [p for p in got if p not in set(exp)]
-        return bad('iterate-memoized-no-internables-paths',
-                   f'missing={miss[:3]} extra={extra[:3]} '
-                   f'counts {len(got)} vs {len(exp)}')
+    # documented meaning of memoize_internables: when False, internable
+    # values (constants and tuples of constants) are visited at every path
+    # and everything else once (Buildable.__eq__ relies on this); when True
+    # every object, by identity, is visited once. Temporaries are distinct
+    # objects, so they are always visited.
+    exp = expected_memoized_paths(root, mi)
+    got = [spec(p) for _, p in stream]
+    if sorted(got, key=repr) != sorted(exp, key=repr):
+      miss = [p for p in exp if p not in set(got)]
+      extra = [p for p in got if p not in set(exp)]
+      return bad(f'iterate-memoized-paths(memoize_internables={mi})',
+                 f'missing={miss[:3]} extra={extra[:3]} '
+                 f'counts {len(got)} vs {len(exp)}')
   # 3. collect_paths_by_id (both implementations)
   for name, fn in (('daglish', lambda: daglish.collect_paths_by_id(
       root, memoizable_only=True)), ('legacy', lambda: (
@@ -341,6 +345,26 @@ def check(root, res, case, label):
   for p, v in gp.items():
     if not same(by_path[p], v) and p not in under_temp:
       return bad('collect_value_by_path-values', f'{p}: {v!r}')
+  # 5b. a memoized map whose results do not retain the visited values
+  def render(value, state):
+    if state.is_traversable(value):
+      return list(state.yield_map_child_values(value))
+    return f'<{value!r}>'
+
+  def ref_render(v):
+    ch = children(v)
+    if ch is None:
+      return f'<{(v.value if type(v) is _TempLeaf else v)!r}>'
+    return [ref_render(c) for _, c in ch]
+
+  try:
+    got = daglish.MemoizedTraversal.run(render, root)
+  except Exception as e:  # pylint: disable=broad-except
+    return bad('memoized-map-raises', repr(e))
+  res.transitions += 1
+  exp = ref_render(root)
+  if got != exp:
+    return bad('memoized-map-result', f'got {got!r} expected {exp!r}')
   # 6. identity rebuilds
   c_shared = canon.canon_cfg(root)
   c_tree = canon.Canon(unfold=True).c(root)
